@@ -82,7 +82,14 @@ func (a *ForwardAuth) Authorize(r *http.Request, requestPath string, body []byte
 
 	client := a.Client
 	if client == nil {
-		client = &http.Client{Timeout: timeout}
+		// Never follow redirects: only a 2xx answer of the auth service itself
+		// allows the request; a 3xx falls through to the fail-closed 503 below.
+		client = &http.Client{
+			Timeout: timeout,
+			CheckRedirect: func(*http.Request, []*http.Request) error {
+				return http.ErrUseLastResponse
+			},
+		}
 	}
 	resp, err := client.Do(req)
 	if err != nil {
